@@ -718,6 +718,15 @@ Matrix Matrix::Inverse() const
 		// Gauss Jordan elimination
 		for(unsigned int i = 0; i < N; i++)
 		{
+			// Partial pivoting: move the entry of largest magnitude in column i (rows i,...,N-1) onto the diagonal.
+			unsigned int pivot_row = i;
+			for(unsigned int k = i + 1; k < N; k++)
+			{
+				if(std::fabs(A[k][i]) > std::fabs(A[pivot_row][i]))
+					pivot_row = k;
+			}
+			if(pivot_row != i)
+				std::swap(A[i], A[pivot_row]);
 			if(A[i][i] == 0)
 			{
 				std::cerr << "Error in libphysica::Matrix::Inverse(): Diagonal element is zero." << std::endl;
